@@ -253,7 +253,7 @@ def do_export(ctx, pe, pd, op, plan, structs, d, clock, faults, files, sql_model
         ctx.compared += 1
         dd = gen.diff(exp, got)
         if dd:
-            ctx.violation("c11.roundtrip", comp, disc_of(dd, disc), dd)
+            report_roundtrip(ctx, comp, disc, dd, "", lambda: gen.diff(without_known_corr_tag(exp), got))
         else:
             analysis_equal(ctx, comp, disc, objs_, back["obsdata"])
         meta_check(ctx, comp, back, desc, clock)
@@ -425,13 +425,21 @@ def do_export(ctx, pe, pd, op, plan, structs, d, clock, faults, files, sql_model
     m = {"transport": tr, "path": path, "gz": gzf, "expect": exp, "durable": True, "frame": tr == "csv", "objs": obj, "size": os.path.getsize(path), "comp": comp, "disc": disc}
     files[key] = m
     # schema of the document on disk
+    def read_text():
+        raw = seams.real_open(path, "rb").read()
+        try:
+            return gzip.decompress(raw).decode("utf-8") if gzf else raw.decode("utf-8")
+        except Exception as e:
+            ctx.violation("c11.schema", comp, disc, "file written by an acknowledged export is not a %s utf-8 document: %s" % ("gzipped" if gzf else "plain", str(e)[:100]))
+            return None
     if tr in ("file", "obs_dump", "corr_dump", "dict"):
-        raw = seams.real_open(path, "rb").read()
-        text = gzip.decompress(raw).decode("utf-8") if gzf else raw.decode("utf-8")
-        validate(ctx, comp, disc, text)
+        text = read_text()
+        if text is not None:
+            validate(ctx, comp, disc, text)
     elif tr == "csv":
-        raw = seams.real_open(path, "rb").read()
-        text = gzip.decompress(raw).decode("utf-8") if gzf else raw.decode("utf-8")
+        text = read_text()
+        if text is None:
+            return
         import csv
         import io
         rows = list(csv.reader(io.StringIO(text)))
@@ -441,6 +449,26 @@ def do_export(ctx, pe, pd, op, plan, structs, d, clock, faults, files, sql_model
                     validate(ctx, comp, disc, cell)
     verify(ctx, pe, partner, m, op["where"], hist)
     ctx.sig(comp, disc, hist, op["where"], "indent%s" % indent if tr in ("file", "dict") else "-")
+
+
+def without_known_corr_tag(c):
+    """expectation under the KNOWN format-inherent finding (Corr.tag == 'None' comes back as None)"""
+    if isinstance(c, dict):
+        if "__corr__" in c and c.get("tag") == "None":
+            c = dict(c, tag=None)
+        return {k: without_known_corr_tag(v) for k, v in c.items()}
+    if isinstance(c, list):
+        return [without_known_corr_tag(v) for v in c]
+    return c
+
+
+def report_roundtrip(ctx, comp, disc, dd, suffix, redo):
+    """report a round-trip difference; if it is the known Corr-tag finding, look behind it for further differences"""
+    ctx.violation("c11.roundtrip", comp, disc_of(dd, disc), dd + suffix)
+    if "Corr tag 'None' vs None" in dd:
+        d2 = redo()
+        if d2:
+            ctx.violation("c11.roundtrip", comp, disc_of(d2, disc), d2 + suffix)
 
 
 def disc_of(dd, disc):
@@ -500,9 +528,11 @@ def verify(ctx, pe, partner, m, where, hist):
         if probs:
             ctx.violation("c11.wellformed", comp, probs[0][0], probs[0][1])
     exact = m["transport"] in ("pickle", "obs_pickle")
-    dd = frame_diff(m["expect"], got) if (isinstance(m["expect"], dict) and "rows" in m["expect"]) else gen.diff(m["expect"], got, exact=exact)
+    isframe = isinstance(m["expect"], dict) and "rows" in m["expect"]
+    dd = frame_diff(m["expect"], got) if isframe else gen.diff(m["expect"], got, exact=exact)
     if dd:
-        ctx.violation("c11.roundtrip", comp, disc_of(dd, disc), "%s [%s, imported in %s]" % (dd, hist, where))
+        e2 = without_known_corr_tag(m["expect"])
+        report_roundtrip(ctx, comp, disc, dd, " [%s, imported in %s]" % (hist, where), lambda: frame_diff(e2, got) if isframe else gen.diff(e2, got, exact=exact))
         return
     ctx.probe("roundtrip_ok")
     if back is not None and m.get("objs") is not None and not m.get("frame"):
